@@ -295,6 +295,13 @@ pub fn gen_filter(rng: &mut Rng, sk_is_lock: bool, c: Option<&Cell>, m: &Model, 
 
 /// Generate `n` (method, search key) pairs for the model state `m`.
 pub fn gen_keys(rng: &mut Rng, m: &Model, pool: &ScriptPool, n: usize) -> Vec<(Method, SK)> {
+    gen_keys_for(rng, m, pool, n, false)
+}
+
+/// `rich`: keys for the rich-indexer (documented to support `partial` script search and every
+/// filter kind also in get_transactions): more partial-mode keys, all filter kinds for
+/// get_transactions. With `rich == false` this is exactly `gen_keys`.
+pub fn gen_keys_for(rng: &mut Rng, m: &Model, pool: &ScriptPool, n: usize, rich: bool) -> Vec<(Method, SK)> {
     let mut out = vec![];
     let live: Vec<&Cell> = m.live.values().collect();
     for _ in 0..n {
@@ -313,10 +320,10 @@ pub fn gen_keys(rng: &mut Rng, m: &Model, pool: &ScriptPool, n: usize) -> Vec<(M
             _ if !own.is_empty() => rng.pick(own).clone(),
             _ => continue,
         };
-        let mode = match rng.below(20) {
-            0..=7 => Some(Mode::Exact),
-            8..=14 => Some(Mode::Prefix),
-            15..=18 => None,
+        let mode = match (rng.below(20), rich) {
+            (0..=7, false) | (0..=5, true) => Some(Mode::Exact),
+            (8..=14, false) | (6..=11, true) => Some(Mode::Prefix),
+            (15..=18, false) | (12..=14, true) => None,
             _ => Some(Mode::Partial),
         };
         let mut sk = SK { script, is_lock, mode, filter: None, with_data: None, group: None };
@@ -348,7 +355,7 @@ pub fn gen_keys(rng: &mut Rng, m: &Model, pool: &ScriptPool, n: usize) -> Vec<(M
             } else {
                 None
             };
-            sk.filter = Some(gen_filter(rng, is_lock, c, m, pool, method == Method::Txs));
+            sk.filter = Some(gen_filter(rng, is_lock, c, m, pool, method == Method::Txs && !rich));
         }
         out.push((method, sk));
     }
